@@ -134,12 +134,18 @@ theorem inert (fmtArg) (writeText) (wstr) (a : FmtAttr) (ds : List Name) (o o' :
 transparent, and a `write!` of the attribute otherwise. -/
 theorem attr_body_cases (c : Ctx) (a : FmtAttr) (fields : FieldsD) :
     (∃ e t, transparentCall c.cc a = some (e, t) ∧
-        fmtBody c a fields = .delegate t (onFields fields.idents e))
+        fmtBody c a fields = .delegate t (onFields a.args.isEmpty fields.idents e))
     ∨ (transparentCall c.cc a = none ∧ ∃ ds, fmtBody c a fields = .write a ds) := by
   unfold fmtBody transparentCallOnFields
   cases h : transparentCall c.cc a with
   | none => right; exact ⟨rfl, _, rfl⟩
   | some p => left; exact ⟨p.1, p.2, rfl, rfl⟩
+
+/-- The delegated expression is the field itself only when the placeholder names the field inside
+the literal; a field's name inside an argument expression is a reference to it and is passed as
+`&(expr)` like any other expression (the difference is visible under `{:p}`). -/
+theorem argument_expression_is_referenced (fields : List (Option Name)) (e : ExprR) :
+    onFields false fields e = "&(" ++ e.toks ++ ")" := rfl
 
 /-- Without an attribute a single-field struct delegates to its field under the derived trait. -/
 theorem no_attr_single_field (c : Ctx) (ident : Name) (f : FieldD) (fs : FieldsD)
